@@ -27,10 +27,20 @@ CHECKS = {
    "The full configuration grid (16 sizes x legacy/modern x 8 flag sets x in-use x 7 max-size answers x 3 DMA fault points = 10752 configurations) is enumerated on every run and a generator adds random device-address bases; geometry, containment in live DMA memory of a permitting direction, zeroed rings, refusal without side effects and exact release are computed independently of the crate.",
    "Trusted: ledger Hal and model transport. The grid is exhaustive; device-address bases are sampled.",
    "exhaustive configuration enumeration + proptest on address bases, geometry oracle"),
+ "C10": ("mmio-trace", "exploration", "4 C10",
+   "Every MMIO load/store of the real MmioTransport is served and recorded by a register-level virtio-mmio model (legacy and modern) plugged in through safe-mmio's custom-mmio backend; generated operation sequences and probe headers are judged per operation against access scripts/constraints derived from VirtIO 1.2 4.2.2-4.2.4 and against the model's resulting state; SomeTransport::Mmio must be trace-identical.",
+   "Trusted: the virtio-mmio register model and per-operation scripts written from the specification; all MMIO goes through safe-mmio.",
+   "proptest op sequences + register-level reference device, ordered-trace oracle, differential vs SomeTransport"),
+ "C13": ("config-space", "exploration", "4 C13",
+   "Bounds: exhaustive grid of window sizes, access types, offsets (incl. offsets whose end overflows usize) on MMIO legacy/modern and PCI with an exact byte-coverage oracle on the bus trace. Torn reads: the five multi-field reads of the drivers with the device switching self-identifying snapshots before every single access index, every pair, and generated larger sets; the result must be one exposed snapshot.",
+   "Trusted: bus trace, emulated config window, snapshot scheduler. Legacy MMIO has no generation counter: untorn reads not asserted there.",
+   "exhaustive grid enumeration + schedule enumeration of device-side config updates, snapshot-membership oracle"),
 }
 
 TODO = {}
 for i in range(7, 21):
+    if "C%02d" % i in CHECKS:
+        continue
     TODO["C%02d" % i] = "check not built yet in this round (planned, see DESIGN.md section 4)"
 
 def main():
@@ -46,6 +56,10 @@ def main():
             "add_only": True,
         },
         "engines": [
+            {"name": "mmio-trace", "path": "harness/src/props/c10.rs", "serves_properties": ["C10"],
+             "kind_free_text": "register-level virtio-mmio model behind safe-mmio custom-mmio; ordered access trace vs spec scripts"},
+            {"name": "config-space", "path": "harness/src/props/c13.rs", "serves_properties": ["C13"],
+             "kind_free_text": "exhaustive config-window bounds grid and config-update schedule enumeration on MMIO/PCI/model transports"},
             {"name": "notify", "path": "harness/src/props/c05.rs", "serves_properties": ["C05"],
              "kind_free_text": "exhaustive should_notify sweep/table on a real queue + spin-hook co-simulation of blocking helpers"},
             {"name": "layout", "path": "harness/src/props/c06.rs", "serves_properties": ["C06"],
